@@ -152,14 +152,17 @@ def judge(check, jobs, results, name):
             raise MachineryError("%s failed for job %r (line %r)" % (clause, {k: v for k, v in job.items() if k != "cls"} | {"cls": job.get("cls")}, ln))
         if clause == "never-raises":
             cls = ln["cls"] or job.get("sig", "?")
-            sig = "total:%s:%s:%s:%s" % (ln["role"], ln["call"], ln["raised"], cls)
-            if sig in seen:
-                continue
-            seen.add(sig)
-            nviol += 1
-            detail = {"clause": clause, "line": ln, "job": job,
-                      "summary": results[ji].get("summary", {}) if isinstance(results[ji], dict) else {}}
-            check.violation(sig, detail)
+            for call, raised in zip(ln["calls"], ln["raised"]):      # formatting only: TLC has judged the line
+                if not raised:
+                    continue
+                sig = "total:%s:%s:%s:%s" % (ln["role"], call, raised, cls)
+                if sig in seen:
+                    continue
+                seen.add(sig)
+                nviol += 1
+                detail = {"clause": clause, "line": ln, "job": job,
+                          "summary": results[ji].get("summary", {}) if isinstance(results[ji], dict) else {}}
+                check.violation(sig, detail)
         elif clause.startswith("model:"):
             init = next(lines[j] for j in range(i, -1, -1) if lines[j]["ev"] == "init")
             obs_ = results[ji].get("summary", {})
@@ -232,7 +235,8 @@ def run(check):
         t2 = time.time()
         if b0 == 0:          # the sessions (V) are judged together with the first batch of edges (R): one set of TLC processes
             judge(check, sess + chunk, res, "TraceConnTotal_VR0")
-            sres = [{"hostile": r_["hostile"], "sessions": r_["sessions"], "n": len(r_["lines"])} for r_ in res[:nsess]]
+            sres = [{"hostile": r_["hostile"], "sessions": r_["sessions"],
+                     "n": sum(len(ln["calls"]) for ln in r_["lines"] if ln["ev"] == "calls")} for r_ in res[:nsess]]
             res = res[nsess:]
         else:
             judge(check, chunk, res, "TraceConnTotal_R%d" % (b0 // BATCH))
